@@ -247,8 +247,7 @@ ClockLeap(r) ==
   /\ UNCHANGED <<commits, nops, ref, trk, hub>>
 
 (* which: 0 = both clock files, 1 = the edit clock only, 2 = the creation clock only *)
-DeleteClocks(r, which) ==
-  /\ clk[r].de # Missing \/ clk[r].dc # Missing
+DeleteClocks(r, which) ==      \* a file that is not there stays not there
   /\ clk' = [clk EXCEPT ![r].de = IF which \in {0, 1} THEN Missing ELSE @, ![r].dc = IF which \in {0, 2} THEN Missing ELSE @]
   /\ res' = [kind |-> "delclocks", r |-> r]
   /\ UNCHANGED <<commits, nops, ref, trk, hub>>
